@@ -47,6 +47,7 @@ type Exec struct {
 	resultOverride    []Term
 	wfSeen            map[string]bool
 	extraNames        map[string]Term
+	typeParamObjs     map[string]*types.TypeParam
 }
 
 type localSig struct {
